@@ -2,6 +2,7 @@ package harness
 
 import (
 	"fmt"
+	"math"
 	"net/url"
 	"reflect"
 	"sort"
@@ -61,7 +62,7 @@ func genC17Struct(t *rapid.T) *StructCase {
 		// synthesised types: members of every comparable kind
 		mg := &msgGen{}
 		g := &structGen{t: t, mg: mg, tag: "valid", maxDepth: 2, maxField: 6, containerMarks: []string{"required", "exist"},
-			scalarKinds: []string{"string", "int", "uint8", "float64", "bool", "int64", "float32"}}
+			scalarKinds: []string{"string", "int", "uint8", "float64", "bool", "int64", "float32", "uint64", "int64"}}
 		g.leafRules = func(string, desc.V) string { return "" }
 		ty, _ := g.genStruct(0)
 		// some members are pointers to scalars (optional fields of generated code): a nil
@@ -75,7 +76,23 @@ func genC17Struct(t *rapid.T) *StructCase {
 			}
 		})
 		walkTypes(&ty, func(st *desc.T) { forceGroups(t, st) })
-		c := &StructCase{Root: desc.Ptr(ty), Val: desc.V{E: []desc.V{g.genValueFor(ty, 0)}}}
+		top := g.genValueFor(ty, 0)
+		// botheq members of the 64-bit integer kinds: neighbours far above 2^53 (equal as float64, different as integers)
+		if rapid.Bool().Draw(t, "bigMembers") {
+			for i, f := range ty.Fields {
+				if i >= len(top.E) || !strings.Contains(f.Tags["valid"], "botheq=") {
+					continue
+				}
+				d := uint64(rapid.IntRange(0, 1).Draw(t, "bigDelta"))
+				switch f.T.K {
+				case "int64", "int":
+					top.E[i] = desc.V{I: int64(rapid.SampledFrom([]uint64{1 << 53, 1 << 62, math.MaxInt64 - 1}).Draw(t, "bigBase") + d)}
+				case "uint64", "uint":
+					top.E[i] = desc.V{U: rapid.SampledFrom([]uint64{1 << 53, 1 << 63, math.MaxUint64 - 1}).Draw(t, "bigBaseU") + d}
+				}
+			}
+		}
+		c := &StructCase{Root: desc.Ptr(ty), Val: desc.V{E: []desc.V{top}}}
 		if rapid.Bool().Draw(t, "mapTop") {
 			c.Root = desc.Map(desc.Scalar("string"), ty)
 			c.Val = g.genValueFor(c.Root, 0)
